@@ -376,6 +376,19 @@ pub fn decode_objects_with(body: &[u8], data_present: bool, lenient_counts: bool
                 let r = take(&mut pos, 2)?;
                 (u16::from_le_bytes([r[0], r[1]]) as usize, None, 2)
             }
+            0x5B => {
+                // free format: count, then per object a 16-bit size and that many octets
+                let n = take(&mut pos, 1)?[0] as usize;
+                headers.push(HeaderInfo { group, var, qualifier: qual, count: n, start: None });
+                for _ in 0..n {
+                    let sz = take(&mut pos, 2)?;
+                    let sz = u16::from_le_bytes([sz[0], sz[1]]) as usize;
+                    let raw = take(&mut pos, sz)?.to_vec();
+                    objects.push(Obj { group, var, index: None, raw, header_no });
+                }
+                header_no += 1;
+                continue;
+            }
             q => return Err(DecodeError::UnknownQualifier(q)),
         };
         headers.push(HeaderInfo {
